@@ -6,6 +6,7 @@ use feoxdb::{FeoxError, FeoxStore};
 
 #[derive(Clone)]
 pub struct Cfg {
+    pub extreme: bool,
     pub persistent: bool,
     pub cache: bool,
     pub ttl: bool,
@@ -103,6 +104,9 @@ struct Runner {
     shadow: std::collections::HashMap<Vec<u8>, Vec<u8>>,
     verdict: Option<String>,
     tiers: [u64; 3],
+    near_max_accepted: bool,
+    /// keys for which the application itself supplied the maximum timestamp
+    pinned: std::collections::HashSet<Vec<u8>>,
 }
 
 impl Runner {
@@ -127,6 +131,32 @@ impl Runner {
             self.verdict = Some(format!("FAIL unexpected-error-kind {result}"));
         }
         self.res.push(line);
+    }
+
+    /// C12 on the implementation's own answers: an automatically timestamped call must not be
+    /// answered OlderTimestamp unless the key itself is pinned at the maximum timestamp.
+    fn check_auto(&mut self, key: &[u8], ts: Option<u64>, key_ts_before: Option<u64>, result: &str) {
+        if let Some(t) = ts {
+            if t >= u64::MAX - 1 && !result.starts_with("err") {
+                self.near_max_accepted = true;
+            }
+            if t == u64::MAX && !result.starts_with("err") {
+                self.pinned.insert(key.to_vec());
+            }
+        }
+        let auto = ts.map_or(true, |t| t == 0);
+        if auto && result == "err:older" && !self.pinned.contains(key) && self.verdict.is_none() {
+            self.verdict = Some(format!(
+                "FAIL auto-write-rejected-as-older key={} key_ts={:?} class={}",
+                hex(&key[..key.len().min(16)]),
+                key_ts_before,
+                if self.near_max_accepted { "near-max-accepted" } else { "unexplained" }
+            ));
+        }
+    }
+
+    fn key_ts(&self, key: &[u8]) -> Option<u64> {
+        self.store().verif_snapshot().iter().find(|r| r.key == key).map(|r| r.timestamp)
     }
 
     fn note_tier(&mut self, key: &[u8]) {
@@ -182,8 +212,11 @@ fn gen_value(rng: &mut Rng, tag: u64) -> Val {
     }
 }
 
-fn gen_ts(rng: &mut Rng, store: &FeoxStore, key: &[u8], now: u64) -> Option<u64> {
+fn gen_ts(rng: &mut Rng, store: &FeoxStore, key: &[u8], now: u64, extreme: bool) -> Option<u64> {
     let cur = store.verif_snapshot().iter().find(|r| r.key == key).map(|r| r.timestamp);
+    if extreme && rng.chance(1, 12) {
+        return Some(u64::MAX - rng.below(2));
+    }
     match rng.below(14) {
         0 => Some(0),
         1 => Some(rng.range(1, 1000)),
@@ -245,6 +278,8 @@ pub fn run_sequence(cfg: &Cfg, seed: u64, nops: usize, path: &str) -> (String, S
         shadow: Default::default(),
         verdict: None,
         tiers: [0; 3],
+        near_max_accepted: false,
+        pinned: Default::default(),
     };
     let nkeys = rng.range(3, 12);
     let mut reopens = 0;
@@ -265,7 +300,7 @@ pub fn run_sequence(cfg: &Cfg, seed: u64, nops: usize, path: &str) -> (String, S
             0..=24 => {
                 let v = gen_value(&mut rng, seed.wrapping_mul(1000).wrapping_add(i as u64));
                 let vb = v.bytes();
-                let ts = gen_ts(&mut rng, r.store(), &key, now);
+                let ts = gen_ts(&mut rng, r.store(), &key, now, cfg.extreme);
                 let use_ttl_api = rng.chance(1, 3);
                 let mut ttl = if use_ttl_api { gen_ttl(&mut rng) } else { 0 };
                 // keep expiries at least an hour away from the wall clock
@@ -280,6 +315,7 @@ pub fn run_sequence(cfg: &Cfg, seed: u64, nops: usize, path: &str) -> (String, S
                         }
                     }
                 }
+                let kts = r.key_ts(&key);
                 let tb = now_ns();
                 let res = if use_ttl_api {
                     r.store().insert_with_ttl_and_timestamp(&key, &vb, ttl, ts)
@@ -294,6 +330,7 @@ pub fn run_sequence(cfg: &Cfg, seed: u64, nops: usize, path: &str) -> (String, S
                     }
                     Err(e) => err_str(e),
                 };
+                r.check_auto(&key, ts, kts, &out);
                 let env = r.env(&key, tb, ta);
                 r.finish_op(format!("ins k={kh} v={} ts={} ttl={ttl} api={} {env}", v.spec(), ts_str(ts), use_ttl_api as u8), out);
             }
@@ -309,7 +346,8 @@ pub fn run_sequence(cfg: &Cfg, seed: u64, nops: usize, path: &str) -> (String, S
                 r.finish_op(format!("get k={kh} {env}"), out);
             }
             40..=47 => {
-                let ts = gen_ts(&mut rng, r.store(), &key, now);
+                let ts = gen_ts(&mut rng, r.store(), &key, now, cfg.extreme);
+                let kts = r.key_ts(&key);
                 let tb = now_ns();
                 let res = r.store().delete_with_timestamp(&key, ts);
                 let ta = now_ns();
@@ -320,6 +358,7 @@ pub fn run_sequence(cfg: &Cfg, seed: u64, nops: usize, path: &str) -> (String, S
                     }
                     Err(e) => err_str(e),
                 };
+                r.check_auto(&key, ts, kts, &out);
                 let env = r.env(&key, tb, ta);
                 r.finish_op(format!("del k={kh} ts={} {env}", ts_str(ts)), out);
             }
@@ -331,9 +370,10 @@ pub fn run_sequence(cfg: &Cfg, seed: u64, nops: usize, path: &str) -> (String, S
                     1 => i64::MIN,
                     _ => rng.below(20) as i64 - 5,
                 };
-                let ts = gen_ts(&mut rng, r.store(), &ckey, now);
+                let ts = gen_ts(&mut rng, r.store(), &ckey, now, cfg.extreme);
                 let ttl = if rng.chance(1, 5) { rng.range(7200, 100_000) } else { 0 };
                 let ts = if ttl > 0 && ts.map_or(false, |t| t != 0 && t < now) { None } else { ts };
+                let kts = r.key_ts(&ckey);
                 let tb = now_ns();
                 let res = r.store().atomic_increment_with_timestamp_and_ttl(&ckey, delta, ts, ttl);
                 let ta = now_ns();
@@ -344,6 +384,7 @@ pub fn run_sequence(cfg: &Cfg, seed: u64, nops: usize, path: &str) -> (String, S
                     }
                     Err(e) => err_str(e),
                 };
+                r.check_auto(&ckey, ts, kts, &out);
                 let env = r.env(&ckey, tb, ta);
                 r.finish_op(format!("incr k={ckh} d={delta} ts={} ttl={ttl} {env}", ts_str(ts)), out);
             }
@@ -374,9 +415,10 @@ pub fn run_sequence(cfg: &Cfg, seed: u64, nops: usize, path: &str) -> (String, S
                 };
                 let expected = if expected.bytes().len() > 2000 { Val::Hex(b"nope".to_vec()) } else { expected };
                 let v = gen_value(&mut rng, seed.wrapping_mul(31).wrapping_add(i as u64));
-                let ts = gen_ts(&mut rng, r.store(), &key, now);
+                let ts = gen_ts(&mut rng, r.store(), &key, now, cfg.extreme);
                 let ttl = if rng.chance(1, 5) { rng.range(7200, 100_000) } else { 0 };
                 let ts = if ttl > 0 && ts.map_or(false, |t| t != 0 && t < now) { None } else { ts };
+                let kts = r.key_ts(&key);
                 let tb = now_ns();
                 let res = r.store().compare_and_swap_with_timestamp_and_ttl(&key, &expected.bytes(), &v.bytes(), ts, ttl);
                 let ta = now_ns();
@@ -389,6 +431,7 @@ pub fn run_sequence(cfg: &Cfg, seed: u64, nops: usize, path: &str) -> (String, S
                     }
                     Err(e) => err_str(e),
                 };
+                r.check_auto(&key, ts, kts, &out);
                 let env = r.env(&key, tb, ta);
                 r.finish_op(format!("cas k={kh} x={} v={} ts={} ttl={ttl} {env}", expected.spec(), v.spec(), ts_str(ts)), out);
             }
@@ -396,11 +439,12 @@ pub fn run_sequence(cfg: &Cfg, seed: u64, nops: usize, path: &str) -> (String, S
                 let jkey = if rng.chance(2, 3) { format!("json{}", rng.below(3) * 5 + 4).into_bytes() } else { key.clone() };
                 let jkh = if jkey.len() > 300 { kh.clone() } else { hex(&jkey) };
                 let patch = PATCHES[rng.below(PATCHES.len() as u64) as usize].as_bytes();
-                let ts = gen_ts(&mut rng, r.store(), &jkey, now);
+                let ts = gen_ts(&mut rng, r.store(), &jkey, now, cfg.extreme);
                 let patched = r
                     .shadow
                     .get(&jkey)
                     .and_then(|cur| feoxdb::utils::json_patch::apply_json_patch(cur, patch).ok());
+                let kts = r.key_ts(&jkey);
                 let tb = now_ns();
                 let res = r.store().json_patch_with_timestamp(&jkey, patch, ts);
                 let ta = now_ns();
@@ -413,6 +457,7 @@ pub fn run_sequence(cfg: &Cfg, seed: u64, nops: usize, path: &str) -> (String, S
                     }
                     Err(e) => err_str(e),
                 };
+                r.check_auto(&jkey, ts, kts, &out);
                 let env = r.env(&jkey, tb, ta);
                 let pj = patched.as_ref().map_or("ERR".to_string(), |p| hex(p));
                 r.finish_op(format!("json k={jkh} ts={} pj={pj} {env}", ts_str(ts)), out);
@@ -559,15 +604,63 @@ pub fn run_sequence(cfg: &Cfg, seed: u64, nops: usize, path: &str) -> (String, S
     (r.case, r.res.join(" | "), r.verdict.unwrap_or_else(|| "ok".to_string()), r.tiers)
 }
 
-pub fn configs() -> Vec<Cfg> {
+/// Directed replay of known finding F2 (C12): an accepted timestamp of 2^64-2 followed by an
+/// automatic write saturates the clock shard; afterwards the second automatic write on any other
+/// key of that shard is answered OlderTimestamp.
+pub fn run_directed_f2() -> (String, String, String) {
+    let cfg = Cfg { extreme: true, persistent: false, cache: false, ttl: false, version: 3, limit: None, blocks: 0 };
+    let store = open(&cfg, "").unwrap();
+    let recsize = FeoxStore::verif_record_overhead();
+    let mut r = Runner {
+        cfg: cfg.clone(),
+        path: String::new(),
+        store: Some(store),
+        case: format!("lww p=0 ttl=0 ver=3 lim=- R={recsize} cache=0 directed=F2"),
+        res: Vec::new(),
+        shadow: Default::default(),
+        verdict: None,
+        tiers: [0; 3],
+        near_max_accepted: false,
+        pinned: Default::default(),
+    };
+    let mut put = |r: &mut Runner, key: &[u8], ts: Option<u64>| {
+        let kts = r.key_ts(key);
+        let tb = now_ns();
+        let res = r.store().insert_with_timestamp(key, b"v", ts);
+        let ta = now_ns();
+        let out = match &res {
+            Ok(b) => b.to_string(),
+            Err(e) => err_str(e),
+        };
+        r.check_auto(key, ts, kts, &out);
+        let env = r.env(key, tb, ta);
+        r.finish_op(format!("ins k={} v=76 ts={} ttl=0 api=0 {env}", hex(key), ts_str(ts)), out);
+    };
+    put(&mut r, b"pinned-A", Some(u64::MAX - 1));
+    put(&mut r, b"pinned-A", None);
+    for i in 0..400 {
+        let k = format!("fresh-{i}");
+        put(&mut r, k.as_bytes(), None);
+        put(&mut r, k.as_bytes(), None);
+        if r.verdict.is_some() {
+            break;
+        }
+    }
+    if let Some(s) = r.store.take() {
+        std::mem::forget(s);
+    }
+    (r.case, r.res.join(" | "), r.verdict.unwrap_or_else(|| "ok".to_string()))
+}
+
+pub fn configs(extreme: bool) -> Vec<Cfg> {
     let mut v = Vec::new();
     for ttl in [false, true] {
         for limit in [None, Some(2600usize)] {
-            v.push(Cfg { persistent: false, cache: false, ttl, version: 3, limit, blocks: 0 });
+            v.push(Cfg { extreme, persistent: false, cache: false, ttl, version: 3, limit, blocks: 0 });
         }
         for cache in [false, true] {
             for version in [1u32, 2, 3] {
-                v.push(Cfg { persistent: true, cache, ttl, version, limit: None, blocks: 4096 });
+                v.push(Cfg { extreme, persistent: true, cache, ttl, version, limit: None, blocks: 4096 });
             }
         }
     }
@@ -582,7 +675,7 @@ pub fn run(opts: &Opts) -> i32 {
     let nops = opts.u64("ops", if opts.thorough() { 150 } else { 70 }) as usize;
     let scratch = format!("{dir}/dev");
     std::fs::create_dir_all(&scratch).unwrap();
-    let cfgs = configs();
+    let cfgs = configs(opts.u64("extreme", 0) == 1);
     let mut work = Vec::new();
     for (ci, c) in cfgs.iter().enumerate() {
         for j in 0..per_cfg {
@@ -590,6 +683,7 @@ pub fn run(opts: &Opts) -> i32 {
         }
     }
     let work = std::sync::Arc::new(std::sync::Mutex::new(work));
+    let directed = opts.u64("extreme", 0) == 1;
     let mut handles = Vec::new();
     for sh in 0..shards {
         let dir = dir.clone();
@@ -598,6 +692,10 @@ pub fn run(opts: &Opts) -> i32 {
         handles.push(std::thread::spawn(move || {
             let mut out = Out::new(&dir, &format!("s{sh}"));
             let mut tiers = [0u64; 3];
+            if sh == 0 && directed {
+                let (case, res, verdict) = run_directed_f2();
+                out.emit3(&case, &res, &verdict);
+            }
             loop {
                 let item = work.lock().unwrap().pop();
                 let Some((ci, cfg, s)) = item else { break };
